@@ -2,8 +2,8 @@
     whenDone / pause / resume / stop / scheduler ticks (any unit budget) / Deferred firings /
     Cooperator.stop / Cooperator.start on the model of the repaired task.py. *)
 From Coq Require Import List Arith Bool.
-From TwLib Require Import PyListIter.
-From C11 Require Import Model Proofs.
+From TwLib Require Import PyListIter PyListIterFair.
+From C11 Require Import Model Proofs Proofs2.
 Import ListNotations.
 
 (** next() is only ever called on the iterator of a task whose pause count is 0 and that has not
@@ -82,6 +82,60 @@ Theorem sample_history_is_nontrivial :
 Proof. exact sample_history_nontrivial. Qed.
 Print Assumptions sample_history_is_nontrivial.
 
-(* NOT proved here (see design.d/C11.md): bounded_wait (no runnable task is starved) and
-   "a call is scheduled exactly when a runnable task exists" are checked on the implementation by
-   the oracle of harness/c11.py and through the correspondence only. *)
+(** between API calls a call of _tick is scheduled EXACTLY when some task is runnable (once the cooperator
+    has been started); nothing is ever scheduled before start() *)
+Theorem a_call_is_scheduled_exactly_when_a_task_is_runnable : forall b ops,
+  let s := run (init b) ops in
+  (started s = true -> (delayed s = true <-> exists t, runnable s t = true))
+  /\ (started s = false -> delayed s = false).
+Proof. exact scheduled_iff_runnable_lemma. Qed.
+Print Assumptions a_call_is_scheduled_exactly_when_a_task_is_runnable.
+
+(** histories in which every resume() matched an earlier pause() ([misuse] stays false): at every next() the task
+    had no outstanding user pause and NO yielded Deferred still pending (ghost snapshot in the advance event);
+    the pending count is exactly the number of its callbacks still waiting on unfired Deferreds, and for every
+    unfinished task  _pauseCount = user pauses + pending yielded Deferreds *)
+Theorem never_advanced_while_paused_or_waiting_on_a_yielded_Deferred : forall b ops,
+  let s := run (init b) ops in
+  misuse s = false ->
+  (forall t p inc nw up, In (EAdv t p inc nw up) (trace s) -> nw = 0 /\ up = 0)
+  /\ (forall t, nwait (tk s t) = nwaits t (dwait s))
+  /\ (forall t, comp (tk s t) = None -> pc (tk s t) = upause (tk s t) + nwait (tk s t)).
+Proof. exact never_advanced_while_waiting_lemma. Qed.
+Print Assumptions never_advanced_while_paused_or_waiting_on_a_yielded_Deferred.
+
+(** the ghost list events of the log (append / remove / clear / next claimed by each advance) replayed on the
+    abstract round-robin machine of TwLib.PyListIterFair give exactly `_tasks` and the `_metarator` index, and
+    every advance in the log is what that machine's next() yields *)
+Theorem task_list_and_metarator_follow_the_logged_list_events : forall b ops,
+  let s := run (init b) ops in
+  aafter a0 (alog s) = (tasks s, meta s) /\ consistent a0 (alog s).
+Proof. exact ghost_log_is_the_scheduler_lemma. Qed.
+Print Assumptions task_list_and_metarator_follow_the_logged_list_events.
+
+(** BOUNDED WAIT (no starvation).  Cut the ghost log of ANY history anywhere: [older] happened before, [seg] (newest
+    first) is a stretch after it.  If task t is listed at the cut and throughout [seg] is neither removed from
+    `_tasks` (not paused, not finished, no Cooperator.stop) nor advanced, then the number of work units done in
+    [seg] is at most  N * (1 + removals) + appends,  N = (tasks listed at the cut) + appends. *)
+Theorem bounded_wait : forall b ops seg older t,
+  alog (run (init b) ops) = seg ++ older ->
+  In t (fst (aafter a0 older)) ->
+  Forall (undisturbed t) seg ->
+  count_next seg <= (length (fst (aafter a0 older)) + count_app seg) * (1 + count_rem seg) + count_app seg.
+Proof. exact bounded_wait_lemma. Qed.
+Print Assumptions bounded_wait.
+
+(** ... the same for every log of the abstract machine, not only those the model produces *)
+Theorem bounded_wait_of_round_robin_over_a_live_list : forall t s0 o,
+  In t (fst s0) -> Forall (undisturbed t) o -> consistent s0 o ->
+  count_next o <= (length (fst s0) + count_app o) * (1 + count_rem o) + count_app o.
+Proof. exact PyListIterFair.bounded_wait. Qed.
+Print Assumptions bounded_wait_of_round_robin_over_a_live_list.
+
+Theorem bounded_wait_hypotheses_are_inhabited :
+  let s := run (init true) bw_history in
+  let older := alog (run (init true) (firstn 3 bw_history)) in
+  let seg := firstn (length (alog s) - length older) (alog s) in
+  alog s = seg ++ older /\ In 2 (fst (aafter a0 older)) /\ Forall (undisturbed 2) seg /\ count_next seg = 2.
+Proof. exact bounded_wait_inhabited. Qed.
+Print Assumptions bounded_wait_hypotheses_are_inhabited.
